@@ -1,0 +1,19 @@
+//go:build verif && linux
+
+package kcp
+
+import "net"
+
+// VerifBatchConn is implemented by a simulated net.PacketConn that wants the
+// Linux batch receive/transmit loops to run against it.
+type VerifBatchConn interface {
+	batchConn
+	VerifUseBatch() bool
+}
+
+func verifBatchConn(conn net.PacketConn) batchConn {
+	if bc, ok := conn.(VerifBatchConn); ok && bc.VerifUseBatch() {
+		return bc
+	}
+	return nil
+}
